@@ -290,7 +290,8 @@ def struct_pack(ip, args, kwargs):
             if isinstance(t, bool):
                 parts.append(zu.bytes_lit(b"\x01" if t else b"\x00"))
             else:
-                parts.append(z3.Unit(z3.If(t, z3.IntVal(1), z3.IntVal(0))))
+                # a named byte (memoised digits): z3's simplifier would hoist a raw ite over the whole concatenation
+                parts.append(z3.Unit(byte_decomp(ip, z3.If(t, z3.IntVal(1), z3.IntVal(0)), 1)[0]))
         elif code == "c":
             if not _is_bytes(ip, v):
                 ip.raise_exc("struct.error", "char format requires a bytes object of length 1")
@@ -661,6 +662,15 @@ def install(ip):
     def _range(ip, a, k):
         if all(isinstance(x, int) for x in a):
             return range(*a)
+        # bounds that the path condition pins to one value (e.g. the length of a decoded fixed-shape field)
+        b = []
+        for x in a:
+            if isinstance(x, Sym) and x.ty == "int":
+                v = ip.path.unique_int(x.t)
+                x = v if v is not None else x
+            b.append(x)
+        if all(isinstance(x, int) for x in b):
+            return range(*b)
         return SymRange(ip, a)
 
     @fn("enumerate")
@@ -978,7 +988,7 @@ def install(ip):
     mod("__future__", annotations=None)
     mod("functools", wraps=Builtin("wraps", lambda ip, a, k: Builtin("wraps_inner", lambda ip2, a2, k2: a2[0])),
         partial=Builtin("partial", lambda ip, a, k: Partial(a[0], a[1:], k)),
-        reduce=Builtin("reduce", lambda ip, a, k: (_ for _ in ()).throw(Unsupported("reduce"))))
+        reduce=Builtin("reduce", _reduce))
     mod("contextlib", suppress=Builtin("suppress", lambda ip, a, k: _Suppress(tuple(a))),
         nullcontext=Builtin("nullcontext", lambda ip, a, k: _NullCtx(a[0] if a else None)))
     mod("operator", methodcaller=Builtin("methodcaller", lambda ip, a, k: MethodCaller(a[0], a[1:], k)),
@@ -1272,9 +1282,23 @@ def install(ip):
         r = ip.fresh("randbits", "int")
         ip.path.assume(z3.And(r.t >= 0, r.t < 2 ** a[0]))
         return r if a[0] > 0 else 0
+    def _choice(ip, a, k):
+        """random.choice over a sequence with a concrete number of elements: every element is a possible outcome"""
+        seq = a[0]
+        if isinstance(seq, PList) and seq.symbolic:
+            raise Unsupported("random.choice over a symbolic-length sequence")
+        items = list(ip.iterate(seq))
+        if not items:
+            ip.raise_exc("IndexError", "Cannot choose from an empty sequence")
+        r = ip.fresh("choice", "int")
+        ip.path.assume(z3.And(r.t >= 0, r.t < len(items)))
+        for i in range(len(items) - 1):
+            if ip.path.branch(r.t == i):
+                return items[i]
+        return items[-1]
     ip.ext_modules.pop("random", None)
     mod("random", random=Builtin("random.random", _random), randint=Builtin("random.randint", _randint),
-        getrandbits=Builtin("random.getrandbits", _getrandbits), choice=Opaque("random.choice"),
+        getrandbits=Builtin("random.getrandbits", _getrandbits), choice=Builtin("random.choice", _choice),
         sample=Opaque("random.sample"), shuffle=Opaque("random.shuffle"),
         SystemRandom=Opaque("random.SystemRandom"))
 
@@ -1434,6 +1458,8 @@ def array_attr(ip, a, name):
     if name == "tobytes":
         def tobytes(ip_, args, k):
             ip.path.assumptions.add("A2: array.tobytes/frombytes are an uninterpreted bijection per typecode (host byte order)")
+            if not a.lst.symbolic:
+                return ip.wrap(_array_bytes_concrete_shape(ip, a), "bytes")
             t = ip.list_term(a.lst, a.elty)
             r = tob(t)
             ip.path.assume(z3.Length(r) == isz * z3.Length(t))
@@ -1446,6 +1472,10 @@ def array_attr(ip, a, name):
             b = ip.to_z3(args[0])
             if ip.path.branch(z3.Length(b) % isz != 0):
                 ip.raise_exc("ValueError", "bytes length not a multiple of item size")
+            nbytes = ip.path.unique_int(z3.Length(b))
+            if nbytes is not None and not a.lst.symbolic:
+                a.lst = PList(list(a.lst.items) + _array_items_from_bytes(ip, a.code, b, nbytes // isz), elty=a.elty)
+                return None
             r = fromb(b)
             ip.path.assume(z3.Length(r) * isz == z3.Length(b))
             ip.path.assume(tob(r) == b)
@@ -1458,6 +1488,62 @@ def array_attr(ip, a, name):
     if name == "append":
         return Builtin("array.append", lambda ip_, args, k: ip.methods[("list", "append")](ip, a.lst, args, k))
     raise Unsupported("array attribute " + name)
+
+
+HOST_LITTLE = __import__("sys").byteorder == "little"   # array.array (de)serialises in the byte order of the machine running the check
+_ARRAY_SIGNED = set("bhilq")
+
+
+def _array_bytes_concrete_shape(ip, a):
+    """tobytes() of an array whose number of elements is concrete: integers as two's complement in HOST byte order,
+    floats through a per-element uninterpreted bijection (A2)."""
+    isz = ArrayVal.SIZES[a.code]
+    parts = []
+    for x in a.lst.items:
+        if a.code in "fd":
+            enc = ufun("array_item_bytes_" + a.code, zu.RealS, zu.BytesS)
+            dec = ufun("array_item_value_" + a.code, zu.BytesS, zu.RealS)
+            t = ip.to_z3(x, "real")
+            r = enc(t)
+            ip.path.assume(z3.Length(r) == isz)
+            ip.path.assume(dec(r) == t)
+            ip.path.assumptions.add("A2: float array items are an uninterpreted bijection (host byte order)")
+            parts.append(r)
+            continue
+        if isinstance(x, (bool, int)):
+            parts.append(zu.bytes_lit(int(x).to_bytes(isz, "little" if HOST_LITTLE else "big", signed=a.code in _ARRAY_SIGNED)))
+            continue
+        t = ip.to_z3(x, "int")
+        u = z3.If(t < 0, t + (1 << (8 * isz)), t) if a.code in _ARRAY_SIGNED else t
+        bs = byte_decomp(ip, u, isz)
+        for b in (reversed(bs) if HOST_LITTLE else bs):
+            parts.append(z3.Unit(b))
+    ip.path.assumptions.add(f"array.array uses the host byte order ({'little' if HOST_LITTLE else 'big'}-endian on this machine)")
+    if not parts:
+        return zu.bytes_lit(b"")
+    return parts[0] if len(parts) == 1 else z3.Concat(*parts)
+
+
+def _array_items_from_bytes(ip, code, b, n):
+    isz = ArrayVal.SIZES[code]
+    out = []
+    for i in range(n):
+        if code in "fd":
+            enc = ufun("array_item_bytes_" + code, zu.RealS, zu.BytesS)
+            dec = ufun("array_item_value_" + code, zu.BytesS, zu.RealS)
+            piece = zu.smart_subseq(b, z3.IntVal(i * isz), z3.IntVal(isz))
+            v = dec(piece)
+            ip.path.assume(enc(v) == piece)
+            out.append(Sym(v, "real"))
+            continue
+        for k in range(isz):
+            el = zu.smart_nth(b, z3.IntVal(i * isz + k))
+            ip.path.assume(z3.And(el >= 0, el <= 255))
+        u = int_of_bytes(b, z3.IntVal(i * isz), isz, HOST_LITTLE)
+        if code in _ARRAY_SIGNED:
+            u = z3.If(u >= (1 << (8 * isz - 1)), u - (1 << (8 * isz)), u)
+        out.append(ip.wrap(u, "int"))
+    return out
 
 
 class HashObj:
@@ -1493,6 +1579,20 @@ class PIter:
         rest = self.items[self.pos:]
         self.pos = len(self.items)
         return rest
+
+
+def _reduce(ip, a, k):
+    """functools.reduce(function, iterable[, initial]) - left fold with the callable executed by the interpreter"""
+    items = list(ip.iterate(a[1]))
+    if len(a) > 2:
+        acc = a[2]
+    elif items:
+        acc, items = items[0], items[1:]
+    else:
+        ip.raise_exc("TypeError", "reduce() of empty iterable with no initial value")
+    for x in items:
+        acc = ip.call(a[0], [acc, x], {})
+    return acc
 
 
 class SymRange:
